@@ -26,7 +26,7 @@ Definition tsim (a b : token) : Prop := ttype a = ttype b /\ veq (ttype b) (tval
 
 Section Text.
 Variable lit_text : value -> bytes.
-Hypothesis lit_ok : forall v, is_json v = true -> json_unmarshal (lit_text v) = Some v.
+Hypothesis lit_ok : lit_spec lit_text.
 
 Notation render := (render lit_text).
 Notation nE := (nE lit_text).
@@ -745,7 +745,8 @@ Proof.
     pose proof (json_unmarshal_json _ _ Ev) as Hj.
     exists (ELit v). split; [reflexivity|]. split; [|split; [reflexivity | reflexivity]].
     split; [exact Hj|]. split; [|split].
-    + cbn [Grammar.render]. apply (Sim_tok i t _ _ Ht Ety). cbn [veq]. rewrite Ev. symmetry. apply lit_ok. exact Hj.
+    + cbn [Grammar.render]. apply (Sim_tok i t _ _ Ht Ety). cbn [veq tk ttype tvalue].
+      destruct (lit_ok v) as [E|[_ E]]; [rewrite Ev, E; split; [reflexivity | discriminate] | exfalso; exact (E _ Ev)].
     + unfold ParserComplete.nE. cbn. lia.
     + intros t' _. cbn [rl]. apply binding_power_le_top.
   - (* tStringLiteral *)
